@@ -119,7 +119,7 @@ def run_tlc(module, cfg_text, name, workers=8, timeout=600, env_extra=None, java
                 res["error"] = line.strip()
     if res["error"] and not res["violated"]:
         raise ToolError(f"TLC error in {module}/{name}: {res['error']} (see {outp})")
-    if res["distinct"] == 0:
+    if res["distinct"] == 0 and not res["violated"]:
         raise ToolError(f"TLC produced no states for {module}/{name} (see {outp})")
     return res
 
